@@ -274,6 +274,9 @@ def signatures(case, exp, v):
     hot = {"gen": "inherited"} if gen else {}     # the filter instance was built with Inherit from a running one
     if cfg["basic"] == "file" and case.get("edits"):   # the user file has been edited since the first generation was built
         hot["src"] = "edited-file" if case.get("settled") else "file-being-edited"
+        if case.get("afterReplace") and case.get("settled"):
+            # the file was REPLACED (new file renamed over it) and then edited again, in whatever way, and left alone
+            hot["src"] = "replaced-file"
     out = []
     if case.get("panic"):
         return [({"kind": "panic", "site": case["panic"][:80]}, "Validator.Handle panicked: %s" % case["panic"][:200])]
@@ -342,7 +345,7 @@ def _vacuity(ctx, cases):
             return "method %s: %d must-accept / %d must-reject cases executed" % (m, na, nr)
     nm = sum(1 for c in cases if c["mutations"])
     last, flips, revoked, readmit, empty = {}, 0, 0, 0, 0
-    fe = {"revoked": 0, "revoked_burst": 0, "readmit": 0, "readmit_burst": 0, "unsettled_bad": 0, "unsettled_free": 0}
+    fe = {"revoked": 0, "revoked_burst": 0, "readmit": 0, "readmit_burst": 0, "unsettled_bad": 0, "unsettled_free": 0, "after_replace": 0}
     rot = {"jwt": 0, "sig": 0, "basic": 0, "readmit": 0, "same": 0}
     for c in pred:
         k = (c["beh"], c["rep"], jdump(c["req"]))
@@ -363,6 +366,8 @@ def _vacuity(ctx, cases):
             if c["cfg"]["basic"] == "file" and c.get("settled"):
                 fe["readmit"] += 1
                 fe["readmit_burst"] += c.get("lastBurst", 0) >= 2
+        if c["cfg"]["basic"] == "file" and c.get("settled") and c.get("afterReplace"):
+            fe["after_replace"] += 1
         if c["cfg"]["basic"] == "file" and not c.get("settled", True):
             fe["unsettled_bad" if c["v"]["basic"] == "bad" else "unsettled_free"] += 1
         if was and c["gen"] > was[3] and c["exp"] == "accept":
@@ -374,8 +379,10 @@ def _vacuity(ctx, cases):
             "basic %(basic)d; rejected then to be admitted: %(readmit)d; admitted before and after: %(same)d" % rot)
     ctx.log("coverage (predicted), user file: accepted then revoked by edits and settled: %(revoked)d (%(revoked_burst)d after two or more edits in a "
             "row); rejected then admitted: %(readmit)d (%(readmit_burst)d); presented while the file was being edited: %(unsettled_bad)d must-reject, "
-            "%(unsettled_free)d open" % fe)
+            "%(unsettled_free)d open; presented after the file had been replaced (rename) and edited again: %(after_replace)d" % fe)
     ctx.cov["user_file_edits"] = fe
+    if ctx.phase("file") and fe["after_replace"] < 3 and not ctx.known_hits:
+        return "user file: only %d cases after a replaced file was edited again" % fe["after_replace"]
     if ctx.phase("file") and (fe["revoked_burst"] < 5 or fe["readmit_burst"] < 3 or fe["revoked"] - fe["revoked_burst"] < 1):
         return "user file: %s" % jdump(fe)
     if ctx.phase("reconf") and (min(rot["jwt"], rot["sig"], rot["basic"]) < 5 or rot["readmit"] < 5 or rot["same"] < 5):
@@ -412,7 +419,8 @@ def run(ctx):
                         "OAuth2 (remote introspection) is outside the property",
                         "FILE mode: 'the bounded time' after which only the current content of the user file counts is decided by the harness: a probe "
                         "user written as the last line by the last edit is admitted by the BasicAuthValidator, or 10 s have passed (20 s in the "
-                        "fresh-world re-check); edits keep the inode (truncate / append / chunked writes), as htpasswd(1) does",
+                        "fresh-world re-check); edits keep the inode (truncate / append / chunked writes), as htpasswd(1) does; in one of six behaviour "
+                        "instances half of the edits replace the file (temporary file renamed over it)",
                         "a hot update is one atomic step for requests (the pipeline swaps the generation); the harness builds the new generation "
                         "with kind.CreateInstance + Inherit(running one) and then closes the old one, as pipeline.reload does",
                         "outcomes the property leaves open (token exactly at exp, cookie and bearer token disagreeing, multi-valued ruled "
@@ -514,7 +522,8 @@ def run(ctx):
                 "%d did not converge within the bounded time (re-check in a fresh world included), %d converged only in the re-check" % (
                     len(settles), max(x["burst"] for x in settles), (waited[len(waited) // 2] if waited else 0) / 1000.0,
                     (waited[-1] if waited else 0) / 1000.0, len(stuck), len(flaky)))
-        ctx.cov["user_file_settles"] = {"n": len(settles), "max_ms": (waited[-1] if waited else 0) / 1000.0, "stuck": len(stuck), "recheck_converged": len(flaky)}
+        ctx.cov["user_file_settles"] = {"n": len(settles), "after_replace": sum(1 for x in settles if x.get("afterReplace")),
+                                        "stuck_after_replace": sum(1 for x in stuck if x.get("afterReplace")), "max_ms": (waited[-1] if waited else 0) / 1000.0, "stuck": len(stuck), "recheck_converged": len(flaky)}
         if flaky:
             ctx.notes.append("user file: %d settle(s) converged only in the fresh-world re-check (machine stalled?)" % len(flaky))
     skipped = [x for x in recs if x.get("k") == "skipped"]
@@ -536,7 +545,7 @@ def run(ctx):
 
     def report(c, exp, v, via):
         for sig, what in signatures(c, exp, v):
-            ctx.violation(sig, what + " [%s]" % via, {k: c.get(k) for k in ("cfg", "mat", "gen", "history", "edits", "settled", "lastBurst", "how", "now", "users", "req", "res", "tag", "wire", "bodyLen",
+            ctx.violation(sig, what + " [%s]" % via, {k: c.get(k) for k in ("cfg", "mat", "gen", "history", "edits", "settled", "lastBurst", "how", "replaces", "afterReplace", "now", "users", "req", "res", "tag", "wire", "bodyLen",
                                                                        "bodySha", "chunked", "mutations", "rep", "panic", "result")} | {"predicted": exp, "v": v})
 
     # MBT: the prediction carried by the vector vs. the observation
